@@ -221,7 +221,7 @@ def oracle_c13(run, ops, impl):
 PROPS["C13"] = {
     "modules": ["NibiruProofs.C13"],
     "runs": [{"model": "infl", "n_quick": 250, "n_thorough": 3000, "nontrivial": r"^[1-9]\d* "},
-             {"model": "dec", "n_quick": 400, "n_thorough": 5000, "nontrivial": r"^-?[1-9]"}],
+             {"model": "dec", "n_quick": 400, "n_thorough": 5000, "nontrivial": r"^-?[1-9]", "per_line": True}],
     "oracle": oracle_c13,
     "rule": "infl: each case is one generated history on the real x/inflation keeper (real bank/distribution/sudo keepers): counters "
             "set to a coherent or arbitrary start, then day-epoch ends with consecutive numbers interleaved with ToggleInflation and "
@@ -232,4 +232,221 @@ PROPS["C13"] = {
     "assumptions": ["counters stay below 2^62 (model uses unbounded naturals for uint64/int64)",
                     "the sudo root is a valid address and the inflation module account has minter permission (genesis)",
                     "property domain: coherent starting counters (DESIGN §7 C13); C13_incoherent_genesis_witness documents the rest"],
+}
+
+
+# ------------------------------------------------------------------------------------------------ C10 / C12 oracle tally
+def sec(args, key):
+    for a in args:
+        if a.startswith(key + "="):
+            return a[len(key) + 1:]
+    return "-"
+
+
+def plist(s, sep=","):
+    return [] if s in ("-", "") else s.split(sep)
+
+
+def parse_tally_op(op):
+    a = op.split()
+    d = dict(height=int(a[2]), thr=int(a[3]), minv=int(a[4]), exp=int(a[5]), band=int(a[6]), tb=int(a[7]), vp=int(a[8]))
+    rest = a[9:]
+    d["vals"] = {}
+    for it in plist(sec(rest, "V")):
+        f = it.split("/")
+        d["vals"][f[0]] = dict(power=int(f[1]), bonded=f[2] == "1", jailed=f[3] == "1")
+    d["wl"] = plist(sec(rest, "W"))
+    d["next"] = plist(sec(rest, "N"))
+    d["rates"] = {}
+    for it in plist(sec(rest, "R")):
+        f = it.split("/")
+        d["rates"][f[0]] = (int(f[1]), int(f[2]))
+    d["votes"] = []
+    for it in plist(sec(rest, "B")):
+        voter, ts = it.split("@")
+        d["votes"].append((voter, [(t.split("/")[0], int(t.split("/")[1])) for t in plist(ts, ";")]))
+    d["rewards"] = [tuple(int(x) for x in it.split("/")) for it in plist(sec(rest, "RW"))]
+    d["mc"] = {it.split("/")[0]: int(it.split("/")[1]) for it in plist(sec(rest, "MC"))}
+    d["bal"] = int(sec(rest, "BAL"))
+    return d
+
+
+def parse_tally_obs(ob):
+    a = ob.split()
+    o = {}
+    o["rates"] = {}
+    for it in plist(sec(a, "R")):
+        f = it.split("/")
+        o["rates"][f[0]] = (int(f[1]), int(f[2]))
+    o["perf"] = {}
+    for it in plist(sec(a, "PERF")):
+        f = it.split("/")
+        o["perf"][f[0]] = dict(weight=int(f[1]), win=int(f[2]), abstain=int(f[3]), miss=int(f[4]))
+    o["mc"] = {it.split("/")[0]: int(it.split("/")[1]) for it in plist(sec(a, "MC"))}
+    o["paid"] = {it.split("/")[0]: int(it.split("/")[1]) for it in plist(sec(a, "PAID"))}
+    o["rewards"] = [tuple(int(x) for x in it.split("/")) for it in plist(sec(a, "RW"))]
+    o["bal"] = int(sec(a, "BAL"))
+    return o
+
+
+def tally_ballots(d):
+    """ballots of bonded validators per pair: list of (rate, voter, power-counted)"""
+    ballots = {}
+    for voter, ts in d["votes"]:
+        v = d["vals"].get(voter)
+        if not v or not v["bonded"]:
+            continue
+        for pair, rate in ts:
+            ballots.setdefault(pair, []).append((rate, voter, v["power"] if rate > 0 else 0))
+    return ballots
+
+
+def quorum(d, b):
+    T = sum(x[2] for x in b)
+    tp = chop_round(d["thr"] * d["tb"])
+    nvalid = sum(1 for x in b if x[0] > 0)
+    return T != 0 and T >= tp and nvalid >= d["minv"]
+
+
+def oracle_c10(run, ops, impl):
+    out = []
+    for i, (op, ob) in enumerate(zip(ops, impl)):
+        if not op.startswith("oracle tally"):
+            continue
+        if ob == "panic":
+            out.append(V("C10:panic", {"line": i + 1}))
+            continue
+        d = parse_tally_op(op)
+        o = parse_tally_obs(ob)
+        ballots = tally_ballots(d)
+        for pair in set(list(d["rates"]) + list(o["rates"]) + list(ballots) + d["wl"]):
+            b = ballots.get(pair, [])
+            should = pair in d["wl"] and quorum(d, b)
+            new = o["rates"].get(pair)
+            old = d["rates"].get(pair)
+            if should:
+                T = sum(x[2] for x in b)
+                if new is None or new[1] != d["height"]:
+                    out.append(V("C10:not-updated", {"line": i + 1, "pair": pair, "new": str(new)}))
+                    continue
+                m = new[0]
+                if T >= 2:
+                    below = sum(x[2] for x in b if x[0] < m)
+                    above = sum(x[2] for x in b if x[0] > m)
+                    okm = any(x[0] == m and x[0] > 0 for x in b) and 2 * below <= T and above <= T - T // 2
+                    if not okm:
+                        out.append(V("C10:not-a-weighted-median", {"line": i + 1, "pair": pair, "rate": str(m), "T": T, "below": below, "above": above,
+                                                                    "ballot": [(str(x[0]), x[2]) for x in b]}))
+            else:
+                expired = old is not None and old[1] + d["exp"] <= d["height"]
+                want = None if (old is None or expired) else old
+                if new != want:
+                    out.append(V("C10:unexpected-rate-change", {"line": i + 1, "pair": pair, "old": str(old), "new": str(new), "whitelisted": pair in d["wl"],
+                                                                "quorum": quorum(d, b)}))
+    return out
+
+
+PROPS["C10"] = {
+    "modules": ["NibiruProofs.C10"],
+    "runs": [{"model": "otally", "n_quick": 400, "n_thorough": 6000, "nontrivial": r"R=[a-z]", "per_line": True}],
+    "oracle": oracle_c10,
+    "rule": "each case: a validator set created through the real staking msg server (random powers, some jailed/unbonding), random "
+            "oracle params accepted by Validate, whitelist, stored rates (fresh / about to expire / non-whitelisted), aggregate votes "
+            "(positive, zero/negative abstain, ties, band-edge, up to 300-bit rates, votes of non-validators), prevotes, miss counters, "
+            "reward allocations; then the real UpdateExchangeRates (and SlashAndResetMissCounters); distinct = distinct op line; "
+            "non-trivial = at least one exchange rate stored afterwards",
+    "assumptions": ["staking keeper: IsBonded/GetConsensusPower/TotalBondedTokens are as observed through its API",
+                    "number of bonded validators ≤ MaxValidators (staking invariant)",
+                    "abstention no-influence and the median bounds need total ballot power ≥ 2 (C10_T_lt_2_witness)"],
+}
+
+
+# ------------------------------------------------------------------------------------------------ C12
+import math as _math
+
+UPPER = (2 ** 256) * P18
+
+
+def std_dev(b, median):
+    pos = [x for x in b if x[0] > 0]
+    if not pos:
+        return 0
+    sq = [dmul(x[0] - median, x[0] - median) for x in pos]
+    if any(abs(x) > UPPER for x in sq):
+        return 0
+    s = sum(sq)
+    if abs(s) > UPPER:
+        return 0
+    return _math.isqrt(tdiv(s, len(pos))) * 10 ** 9
+
+
+def oracle_c12(run, ops, impl):
+    out = []
+    for i, (op, ob) in enumerate(zip(ops, impl)):
+        if ob == "panic":
+            out.append(V("C12:panic", {"line": i + 1}))
+            continue
+        if op.startswith("oracle tally"):
+            d = parse_tally_op(op)
+            o = parse_tally_obs(ob)
+            ballots = tally_ballots(d)
+            exp_miss = {}
+            for pair, b in ballots.items():
+                if not (pair in d["wl"] and quorum(d, b)):
+                    continue
+                if pair not in o["rates"]:
+                    continue  # C10's business
+                median = o["rates"][pair][0]
+                spread = max(dmul(median, tdiv(d["band"], 2)), std_dev(b, median))
+                for rate, voter, _ in b:
+                    if rate > 0 and not (median - spread <= rate <= median + spread):
+                        exp_miss.setdefault(voter, set()).add(pair)
+            for a, v in d["vals"].items():
+                before = d["mc"].get(a, 0)
+                after = o["mc"].get(a, 0)
+                want = len(exp_miss.get(a, ())) if v["bonded"] else 0
+                if after - before != want:
+                    out.append(V("C12:miss-counter", {"line": i + 1, "validator": a, "before": before, "after": after, "expected_growth": want,
+                                                      "out_of_band_pairs": sorted(exp_miss.get(a, ()))}))
+            # rewards
+            totw = sum(p["weight"] for p in o["perf"].values())
+            pot = sum(r[2] for r in d["rewards"])
+            owed_before = sum(r[1] * r[2] for r in d["rewards"])
+            owed_after = sum(r[1] * r[2] for r in o["rewards"])
+            paid = sum(o["paid"].values())
+            if totw > 0:
+                if paid > pot:
+                    out.append(V("C12:paid-exceeds-pot", {"line": i + 1, "paid": paid, "pot": pot}))
+                for a, p in o["perf"].items():
+                    want = (pot * ((p["weight"] * P18) // totw)) // P18
+                    if o["paid"].get(a, 0) != want:
+                        out.append(V("C12:not-pro-rata", {"line": i + 1, "validator": a, "paid": o["paid"].get(a, 0), "want": want, "weight": p["weight"], "total": totw}))
+            elif paid != 0:
+                out.append(V("C12:paid-without-weight", {"line": i + 1, "paid": paid}))
+            if d["bal"] >= owed_before and o["bal"] < owed_after:
+                out.append(V("C12:module-balance-below-owed", {"line": i + 1, "balance": o["bal"], "owed": owed_after}))
+        elif op.startswith("oracle slash"):
+            a = op.split()
+            sw, vp, minvalid = int(a[2]), int(a[3]), int(a[4])
+            vals = {}
+            for it in plist(sec(a[5:], "V")):
+                f = it.split("/")
+                vals[f[0]] = dict(bonded=f[2] == "1", jailed=f[3] == "1")
+            mc = {it.split("/")[0]: int(it.split("/")[1]) for it in plist(sec(a[5:], "MC"))}
+            ppw = sw // vp
+            want = sorted(x for x, n in mc.items() if tdiv((ppw - n) * P18, ppw) < minvalid and vals.get(x, {}).get("bonded") and not vals[x]["jailed"])
+            o = ob.split()
+            got = plist(sec(o, "SLASHED"))
+            if sorted(got) != want or sec(o, "MC") != "-":
+                out.append(V("C12:slash-set", {"line": i + 1, "got": got, "want": want, "counters_after": sec(o, "MC")}))
+    return out
+
+
+PROPS["C12"] = {
+    "modules": ["NibiruProofs.C12"],
+    "runs": [{"model": "otally", "n_quick": 400, "n_thorough": 6000, "nontrivial": r"PAID=[0-9a-f]|SLASHED=[0-9a-f]", "per_line": True}],
+    "oracle": oracle_c12,
+    "rule": PROPS["C10"]["rule"] + "; for C12 a case is non-trivial when a reward was paid out or a validator was slashed",
+    "assumptions": ["staking Slash/Jail, distribution AllocateTokensToValidator and bank transfers behave as observed through their APIs "
+                    "(parameters of the model)", "reward coins are a single denom in the model (per-denom independent in the code)"],
 }
